@@ -8,6 +8,7 @@ pub mod memtransport;
 pub mod props;
 pub mod rng;
 pub mod run;
+pub mod specgen;
 
 use chrono::{DateTime, TimeZone, Utc};
 
